@@ -191,6 +191,15 @@ def opt_of(case, k, name, default):
 
 
 # ------------------------------------------------------------------------------------------ objects
+def canon(t):
+    """frozensets are unordered: sort their elements in tree keys"""
+    if isinstance(t, list) and t and t[0] == 'frozenset':
+        return ['frozenset', sorted((canon(x) for x in t[1]), key=json.dumps)]
+    if isinstance(t, list) and t and t[0] == 'tuple':
+        return ['tuple', [canon(x) for x in t[1]]]
+    return t
+
+
 class World:
     def __init__(self, case):
         self.case = case
@@ -205,7 +214,7 @@ class World:
         self.r_atoms = [U.reify_val(o, t) for o, t in zip(self.atoms, case['atoms'])]
         self.atom_tree = {}
         for i, t in enumerate(self.r_atoms):
-            self.atom_tree.setdefault(json.dumps(t), i)
+            self.atom_tree.setdefault(json.dumps(canon(t)), i)
         self.heap = [None] * len(case['heap'])
         self.building = set()
         for q in range(len(case['heap'])):
@@ -251,7 +260,7 @@ class World:
         if isinstance(o, MUTABLE) or '_pv_path' in t.__dict__:
             return None
         try:
-            return self.atom_tree.get(json.dumps(U.reify_val(o)))
+            return self.atom_tree.get(json.dumps(canon(U.reify_val(o))))
         except Exception:
             return None
 
